@@ -125,6 +125,11 @@ def run(ctx):
 
   from .common import record_before_call
   record_before_call(ctx, 'C07.record')
+  # the names the record is printed under: shared with C06 / C08 / C19
+  from .common import method_selector_rule
+  method_selector_rule(ctx, 'C07.sections')
+  from .c19 import import_aliases
+  import_aliases(ctx, 'C07.sections')
   # ---- C07.defaults
   df = ctx.func('config._get_default_configurable_parameter_values')
   g2, facts2 = std_facts(prog, df)
